@@ -98,21 +98,6 @@ def check(ctx):
                 # closed before the rename: explicit close() or the stream's scope ends first
                 closed = any(c_['stream'] == ('stream', o['stream']) and effs.index(ser_ok[0]) < effs.index(c_) < effs.index(r_)
                              for c_ in closes)
-                if not closed:
-                    par = parents(f.body)
-                    dnode = None
-                    rnode = None
-                    for n in f.body.walk():
-                        if n.cid == o['node'] or (n.op == 'decl' and n.k and n.k[0].cid == o['node']):
-                            if n.op == 'decl':
-                                dnode = n
-                        if n.cid == r_['node']:
-                            rnode = n
-                    if dnode is not None and rnode is not None:
-                        db = enclosing_blocks(dnode, par)
-                        rb = enclosing_blocks(rnode, par)
-                        if db and all(db[0] is not b for b in rb):
-                            closed = True
                 if order_ok and closed:
                     ctx.holds('R1.protocol', w, 'open(tmp) -> serialize -> stream closed -> rename(tmp, '
                               'filename_): at every instant filename_ is absent, the previous or the new '
